@@ -98,6 +98,7 @@ const (
 	kQuery     // route(inherits) with a query string
 	kMounted   // route(inherits) whose handler delegates to a second router, passing its own writer
 	kSetWriter // route(inherits) whose handler attaches another ResponseWriter (Context.SetWriter) before answering
+	kOwnZero   // route whose own resolver succeeds with a zero net.IPAddr (it renders as the empty string)
 	nKinds
 )
 
@@ -106,7 +107,12 @@ var rawTargets = map[int]string{kEncSlash: "/enc/a%2Fb", kEncByte: "/enc/%41lice
 
 func isRouteKind(k int) bool { return k <= kOwnNil || k >= kEncSlash }
 
-var kNames = [...]string{"route(inherits)", "route(own resolver ok)", "route(own resolver failing)", "route(resolver nil)", "redirect", "404", "405", "OPTIONS", "route(inherits) escaped slash", "route(inherits) escaped byte", "route(inherits) with query", "route(inherits) delegating to a mounted router", "route(inherits) attaching another writer (SetWriter)"}
+// zeroResolver succeeds with the zero address: what it returned is what is reported, resolution did not fail.
+type zeroResolver struct{}
+
+func (zeroResolver) ClientIP(fox.Context) (*net.IPAddr, error) { return &net.IPAddr{}, nil }
+
+var kNames = [...]string{"route(inherits)", "route(own resolver ok)", "route(own resolver failing)", "route(resolver nil)", "redirect", "404", "405", "OPTIONS", "route(inherits) escaped slash", "route(inherits) escaped byte", "route(inherits) with query", "route(inherits) delegating to a mounted router", "route(inherits) attaching another writer (SetWriter)", "route(own resolver succeeding with a zero address)"}
 
 // behaviours of the route handler
 type behaviour struct {
@@ -174,6 +180,7 @@ func newWorld(g int) *world {
 		must(f.Handle("GET", "/own", h, fox.WithClientIPResolver(resolver{ip: "2.2.2.2"})))
 		must(f.Handle("GET", "/ownfail", h, fox.WithClientIPResolver(resolver{fail: true, ip: "203.0.113.7"})))
 		must(f.Handle("GET", "/ownnil", h, fox.WithClientIPResolver(nil)))
+		must(f.Handle("GET", "/ownzero", h, fox.WithClientIPResolver(zeroResolver{})))
 		must(f.Handle("GET", "/redir/", h, fox.WithRedirectTrailingSlash(true)))
 		must(f.Handle("GET", "/enc/{x}", h))
 		// a second router mounted below a route: it is handed the outer context's writer
@@ -228,6 +235,8 @@ func request(kind int, remote string) (string, string) {
 		return "GET", "/mnt/v"
 	case kSetWriter:
 		return "GET", "/sw/v"
+	case kOwnZero:
+		return "GET", "/ownzero"
 	}
 	return "OPTIONS", "/plain"
 }
@@ -267,6 +276,8 @@ func expectedMsg(g, kind int, remote string) (string, bool) {
 		return "unknown", true
 	case kOwnNil:
 		return remoteIP()
+	case kOwnZero:
+		return (&net.IPAddr{}).String(), true
 	}
 	switch res {
 	case gOK:
